@@ -27,6 +27,7 @@ import (
 	"github.com/sassoftware/relic/v8/server"
 
 	"verif/faketoken"
+	"verif/shim/vcontext"
 	"verif/shim/vtime"
 	"verif/vlib"
 )
@@ -107,7 +108,10 @@ type instance struct {
 	held    *pingReq // first ping of a round, not answered yet: the loop is not waiting on a timer
 }
 
-type pingReq struct{ reply chan error }
+type pingReq struct {
+	ctx   context.Context
+	reply chan error
+}
 
 // maxRoundsPerWake: a correct loop performs one round per wake-up; a loop that
 // keeps starting rounds without waiting is followed this far, then held.
@@ -123,8 +127,16 @@ func (in *instance) answer(r pingReq) {
 	case "error":
 		err = errors.New("scripted token failure")
 	case "timeout":
-		// the ping hangs until the per-check deadline
-		vtime.Advance(time.Duration(in.c.Timeout)*time.Second + 1)
+		// the ping hangs until the per-check deadline: the deadline passes first
+		// (the check's context is the harness's to expire), the token's own
+		// answer - the context's error - comes a moment later, as it always does
+		if v, ok := r.ctx.(*vcontext.VCtx); ok {
+			v.Expire()
+			vtime.Advance(1)
+			time.Sleep(2 * time.Millisecond)
+		} else {
+			vtime.Advance(time.Duration(in.c.Timeout)*time.Second + 1)
+		}
 		err = context.DeadlineExceeded
 	}
 	if len(in.round) == in.c.Tokens {
@@ -192,7 +204,7 @@ func newInstance(c cfgT) *instance {
 	faketoken.S.Ping = func(ctx context.Context, name string) error {
 		// tokens are pinged in map order; the reference treats the vector as a
 		// multiset, so outcomes are dealt in call order.
-		r := pingReq{make(chan error, 1)}
+		r := pingReq{ctx, make(chan error, 1)}
 		select {
 		case in.pingCh <- r:
 		case <-in.done:
